@@ -699,3 +699,126 @@ pub fn record<S: System>(
         }
     }
 }
+
+#[cfg(test)]
+mod tests {
+    use super::*;
+
+    /// Toy system: two counters modulo (m, n); action 0 bumps the first, action 1 the second,
+    /// action 2 is a probe. A "violation" is planted at (vx, vy).
+    struct Grid {
+        m: u32,
+        n: u32,
+        bad: Option<(u32, u32)>,
+    }
+    impl System for Grid {
+        type State = (u32, u32);
+        type Action = u8;
+        type Key = (u32, u32);
+        fn name(&self) -> String {
+            "grid".into()
+        }
+        fn init(&self) -> (u32, u32) {
+            (0, 0)
+        }
+        fn actions(&self, _s: &(u32, u32), out: &mut Vec<u8>) {
+            out.extend([0u8, 1, 2]);
+        }
+        fn step(&self, s: &(u32, u32), a: &u8) -> Step<(u32, u32)> {
+            let next = match a {
+                0 => Some(((s.0 + 1) % self.m, s.1)),
+                1 => Some((s.0, (s.1 + 1) % self.n)),
+                _ => None,
+            };
+            let mut v = Vec::new();
+            if let Some(nx) = next {
+                if Some(nx) == self.bad {
+                    v.push(Violation::new("planted", "T/planted", "reached the planted state"));
+                }
+            }
+            Step { next, obs: next.map_or(0, |x| 1 + x.0 as u64 * 1000 + x.1 as u64), violations: v }
+        }
+        fn key(&self, s: &(u32, u32)) -> (u32, u32) {
+            *s
+        }
+    }
+
+    #[test]
+    fn fixpoint_counts_are_exact() {
+        let g = Grid { m: 37, n: 11, bad: None };
+        let out = explore(&g, &Limits::default());
+        assert_eq!(out.nodes.len(), 37 * 11);
+        assert_eq!(out.transitions, 2 * 37 * 11);
+        assert_eq!(out.probes, 37 * 11);
+        assert!(out.exhaustive && out.found.is_empty());
+        assert_eq!(out.restoration_checked, 37 * 11);
+        assert!(out.restoration_failures.is_empty());
+        // BFS depth = eccentricity of the torus walk with +1 moves only
+        assert_eq!(out.depth, 36 + 10);
+    }
+
+    #[test]
+    fn violation_trace_is_shortest_and_successor_not_expanded() {
+        let g = Grid { m: 50, n: 50, bad: Some((3, 2)) };
+        let out = explore(&g, &Limits::default());
+        assert_eq!(out.found.len(), 1);
+        assert_eq!(out.found[0].trace.len(), 5);
+        // the planted state itself is never a node
+        assert!(out.nodes.iter().all(|n| n.state != (3, 2)));
+    }
+
+    #[test]
+    fn deterministic_across_runs() {
+        let g = Grid { m: 64, n: 64, bad: None };
+        let a = explore(&g, &Limits::default());
+        let b = explore(&g, &Limits::default());
+        let pa: Vec<_> = a.nodes.iter().map(|n| (n.state, n.parent)).collect();
+        let pb: Vec<_> = b.nodes.iter().map(|n| (n.state, n.parent)).collect();
+        assert_eq!(pa, pb);
+    }
+
+    /// Same key for many states: the `same` refinement and the fine-key index must keep them apart.
+    struct Bucketed;
+    impl System for Bucketed {
+        type State = u32;
+        type Action = u8;
+        type Key = u8;
+        fn name(&self) -> String {
+            "bucketed".into()
+        }
+        fn init(&self) -> u32 {
+            0
+        }
+        fn actions(&self, _s: &u32, out: &mut Vec<u8>) {
+            out.extend([0u8, 1]);
+        }
+        fn step(&self, s: &u32, a: &u8) -> Step<u32> {
+            let next = if *a == 0 { (s + 1) % 1000 } else { (s * 7 + 3) % 1000 };
+            Step { next: Some(next), obs: 0, violations: vec![] }
+        }
+        fn key(&self, _s: &u32) -> u8 {
+            0
+        }
+        fn same(&self, a: &u32, b: &u32) -> bool {
+            a == b
+        }
+        fn fine_key(&self, s: &u32) -> Option<u128> {
+            Some(*s as u128)
+        }
+    }
+
+    #[test]
+    fn long_buckets_are_indexed_without_losing_states() {
+        let out = explore(&Bucketed, &Limits::default());
+        assert_eq!(out.nodes.len(), 1000);
+        assert_eq!(out.max_bucket, 1000);
+    }
+
+    #[test]
+    fn caps_are_reported_not_hidden() {
+        let g = Grid { m: 1000, n: 1000, bad: None };
+        let out = explore(&g, &Limits { max_states: 5000, ..Default::default() });
+        assert!(!out.exhaustive);
+        assert!(out.cap.is_some());
+    }
+}
